@@ -497,6 +497,7 @@ class MiniInterp:
             return
         if isinstance(st, ast.With):
             suppressed = []
+            managers = []
             for it in st.items:
                 ce = it.context_expr
                 if isinstance(ce, ast.Call) and (attr_chain(ce.func) or "").endswith("suppress"):
@@ -505,14 +506,39 @@ class MiniInterp:
                 # any other context manager: the value itself is bound (open files, locks, Live displays ...); __exit__
                 # is not modelled (no exception is swallowed by it)
                 v = self.ev(ce, env, fi)
+                if isinstance(v, Sym) and v.cls is not None and v.cls.find_method("__enter__") is not None:
+                    # a context manager of the project: __enter__ gives what `as` binds, __exit__ runs when the block is left
+                    managers.append(v)
+                    v = self.call(self.prj.func(v.cls.find_method("__enter__").qual, raw=True), [], {}, v)
                 if it.optional_vars is not None:
                     self.assign(it.optional_vars, v, env, fi)
+
+            def leave(exc):
+                """run the __exit__ methods, innermost first; True when one of them swallows the exception"""
+                swallowed = False
+                for mgr in reversed(managers):
+                    ex_m = mgr.cls.find_method("__exit__")
+                    if ex_m is None:
+                        continue
+                    a = [None, None, None] if exc is None or swallowed else [T("builtin", exc.name), getattr(exc, "value", None) or Sym("exc:" + exc.name), None]
+                    if self.truth(self.call(self.prj.func(ex_m.qual, raw=True), a, {}, mgr)) and exc is not None:
+                        swallowed = True
+                return swallowed
             try:
                 self.block(st.body, env, fi)
             except PyRaise as ex:
                 from .core import exc_is_caught
+                if managers and leave(ex):
+                    return
                 if not (suppressed and exc_is_caught(ex.name, suppressed)):
                     raise
+                return
+            except (_Ret, _Brk, _Cont):
+                if managers:
+                    leave(None)
+                raise
+            if managers:
+                leave(None)
             return
         if isinstance(st, ast.Match):
             subj = self.ev(st.subject, env, fi)
